@@ -7,7 +7,7 @@
 //! The velocity, personal-best and particle collections always have one entry per particle."
 //! (The interpolation clause has a contract part: `Linear::execute` = `mapping()` with its own lenses — Verus unit `linear` — and
 //! `Linear::map` = (end - start) * value + start for all f64 — Kani harness.)  Native runs of the real PSO template with probes
-//! between its components: 12 iterations x 4 seeds x 2 parameter sets (one with c1 = c2 = 0 to observe the stored weight).
+//! between its components: 12 iterations x 4 seeds x 5 parameter sets (decreasing, increasing and constant weight schedules; two with c1 = c2 = 0 to observe the stored weight).
 use std::sync::{Arc, Mutex};
 
 use super::*;
@@ -117,7 +117,7 @@ fn one_run(seed: u64, start_w: f64, end_w: f64, c1: f64, c2: f64, v_max: f64, n:
 pub fn c18_native_swarm() {
     let mut cases = 0u64;
     for seed in 0..4u64 {
-        for (sw, ew, c1, c2, vm, particles) in [(0.9, 0.4, 1.0, 1.5, 1.0, 6u32), (0.9, 0.4, 0.0, 0.0, 0.5, 4), (1.2, 0.2, 2.0, 2.0, 0.25, 1)] {
+        for (sw, ew, c1, c2, vm, particles) in [(0.9, 0.4, 1.0, 1.5, 1.0, 6u32), (0.9, 0.4, 0.0, 0.0, 0.5, 4), (1.2, 0.2, 2.0, 2.0, 0.25, 1), (0.4, 0.9, 0.5, 0.5, 1.0, 3), (0.7, 0.7, 0.0, 0.0, 1.0, 2)] {
             let (failures, updates) = one_run(seed, sw, ew, c1, c2, vm, 12, particles);
             if updates != 12 { eprintln!("COUNTEREXAMPLE seed={seed} weights {sw}->{ew} c1={c1} c2={c2} v_max={vm}: {updates} swarm updates observed in 12 iterations"); panic!("swarm invariant violated") }
             if !failures.is_empty() {
